@@ -345,6 +345,36 @@ func (o printOpts) runOpts() runOpts {
 	}
 }
 
+// printHost: the module-serving analyzer host of `hv run`, which additionally knows the object
+// type field annotation `@setting` (so that annotated singleton types can be accepted).
+type printHost struct{ memHost }
+
+func (h printHost) GetKnownObjectTypeFieldAnnotations() []string { return []string{"setting"} }
+
+func rpAnalyzeMods(mods map[string]string) (map[string]aast.AnalyzedProgram, string, bool) {
+	analyzed, diags, syn := hms.Analyze(hms.InputProgram{ProgramText: mods["main"], Filename: "main"},
+		hms.TestingAnalyzerScopeAdditions(), printHost{memHost{mods}}, true)
+	nerr := 0
+	first := ""
+	for _, s := range syn {
+		if first == "" {
+			first = "syntax: " + s.Message
+		}
+	}
+	for _, d := range diags {
+		if d.Level == diagnostic.DiagnosticLevelError {
+			nerr++
+			if first == "" {
+				first = d.Message
+			}
+		}
+	}
+	if len(syn) > 0 || nerr > 0 {
+		return nil, fmt.Sprintf("A=REJECT syn=%d diag=%d first=%s", len(syn), nerr, hexs(first)), false
+	}
+	return analyzed, "A=ACCEPT", true
+}
+
 // guarded runs f and turns a panic of the code under test into "PANIC x<hex>".
 func guarded(f func() string) (res string) {
 	defer func() {
@@ -365,7 +395,7 @@ func analyzeAndRun(mods map[string]string, main string, o printOpts) (verdict, v
 	ok := false
 	verdict = guarded(func() string {
 		var v string
-		analyzed, v, ok = analyzeMods(m2)
+		analyzed, v, ok = rpAnalyzeMods(m2)
 		return strings.TrimPrefix(v, "A=")
 	})
 	if !ok {
@@ -551,7 +581,7 @@ func optimizeLine(line string) string {
 	ok := false
 	verdict := guarded(func() string {
 		var v string
-		analyzed, v, ok = analyzeMods(o.mods)
+		analyzed, v, ok = rpAnalyzeMods(o.mods)
 		return strings.TrimPrefix(v, "A=")
 	})
 	add("A", verdict)
